@@ -734,6 +734,11 @@ func Run(e *core.Env) {
 		w.xs = []*pdf.Extractor{pdf.NewExtractor(yg), pdf.NewExtractor(yg)}
 		base := h.Calls
 		h.Hook = func(int64, int) { sched.Yield("ReadAt") }
+		if t.Bool("yieldAfterRead", 1, 2) {
+			// a caller may also be descheduled between receiving its bytes and
+			// looking at them
+			h.HookAfter = func(int64, int) { sched.Yield("ReadAt returned") }
+		}
 		if faultAt >= 0 {
 			h.FailOnly = base + faultAt
 		}
